@@ -141,6 +141,9 @@ class GroupAdditivityScheme(Scheme):
         self._AssignCenterPattern(mol, debug)
         groups = self._AssignGroup(mol)
         descriptors = self._AssignDescriptor(mol, clean_mol)
+        if os.environ.get('PGRADD_VERIF') == '1':
+            # verification hook (guarded, add-only): keep the annotated molecule
+            self._verif_last_mol = mol
         all_descriptors = groups.copy()
         all_descriptors.update(descriptors)
         return all_descriptors
